@@ -216,3 +216,18 @@ impl V
 		}
 	}
 }
+
+
+/// FNV-1a over the bytes, folded to 31 bits (the trace checker's integers are 32-bit).
+pub fn checksum(bytes: &[u8]) -> i128
+{
+	let mut h: u32 = 0x811c9dc5;
+
+	for b in bytes
+	{
+		h ^= *b as u32;
+		h = h.wrapping_mul(0x01000193);
+	}
+
+	((h >> 1) & 0x7fff_ffff) as i128
+}
